@@ -101,7 +101,7 @@ func TestCheck(t *testing.T) {
 	case "spsa":
 		c.Roots, c.Sweeps, c.SweepK = r.N(40, 300), r.N(48, 300), r.N(300, 1500)
 	default:
-		c.Roots, c.Sweeps, c.SweepK = r.N(60, 900), r.N(110, 880), r.N(400, 5000)
+		c.Roots, c.Sweeps, c.SweepK = r.N(120, 900), r.N(165, 880), r.N(400, 5000)
 	}
 	c.Go()
 	if r.Stage == "main" {
@@ -118,7 +118,7 @@ func TestCheck(t *testing.T) {
 
 // uciPath: position ... ; go <arbitrary numeric arguments>; the bestmove token is judged like a search result.
 func uciPath(r *ev.Run) {
-	n := r.N(600, 12000)
+	n := r.N(2000, 20000)
 	ev.Parallel(n, func(wk, i int) {
 		rng := r.RNG("c06-uci", i)
 		root, kind := strace.RandomRoot(rng, strace.RootKinds[i%len(strace.RootKinds)])
